@@ -117,6 +117,28 @@ class Prim(Shape):
         return []
 
 
+class _Omitted:
+    def __repr__(self):
+        return '<omitted>'
+
+
+OMITTED = _Omitted()      # placeholder for "argument not passed" (trailing optional parameters)
+
+
+def call_dropping_omitted(it, fn, *vals):
+    vals = list(vals)
+    while vals and vals[-1] is OMITTED:
+        vals.pop()
+    return it.call(fn, vals, {})
+
+
+def native_dropping_omitted(fn, *vals):
+    vals = list(vals)
+    while vals and vals[-1] is OMITTED:
+        vals.pop()
+    return fn(*vals)
+
+
 class Const(Shape):
     def __init__(self, value, label=None):
         self.value = value
@@ -255,14 +277,18 @@ class Fork:
 
 
 class Case:
-    def __init__(self, name, guard, ensures):
-        self.name, self.guard, self.ensures = name, guard, ensures
+    def __init__(self, name, guard, ensures, proof=True):
+        """proof=False: the clause is out of the solvers' reach (stated in DESIGN.md); it is only evaluated by the
+        bounded layer and is never counted as a proof obligation."""
+        self.name, self.guard, self.ensures, self.proof = name, guard, ensures, proof
 
 
 class Unit:
     def __init__(self, id, target, inputs, cases, requires=None, call=None, allowed_raises=(), canary=None,
                  axioms=None, prop=None, doc='', setup=None, native_call=None, max_paths=4000, timeout_ms=None,
-                 bounded_domain_cap=4000, kf_regions=None, feas_timeout_ms=2000):
+                 bounded_domain_cap=4000, kf_regions=None, feas_timeout_ms=2000, fork=None, extra_combos=()):
+        self.fork = fork
+        self.extra_combos = list(extra_combos)
         self.id, self.target, self.inputs, self.cases = id, target, inputs, cases
         self.requires = requires or (lambda *a: True)
         self.call = call
@@ -280,10 +306,43 @@ class Unit:
         self.feas_timeout_ms = feas_timeout_ms
 
     def instances(self):
+        """class-fork instances.  fork='product': every combination; fork='star' (default for >2 forked inputs):
+        the first shape of every input, then each alternative of each input with the others at their first shape
+        (arguments are converted independently by `validate_args`, one `_validate` call per parameter)."""
         names = [n for n, _ in self.inputs]
         options = [s.shapes if isinstance(s, Fork) else [s] for _, s in self.inputs]
-        for combo in itertools.product(*options):
-            yield UnitInstance(self, list(zip(names, combo)))
+        mode = self.fork or ('product' if sum(1 for o in options if len(o) > 1) <= 1 else 'star')
+        if mode == 'product':
+            for combo in itertools.product(*options):
+                yield UnitInstance(self, list(zip(names, combo)))
+            return
+        seen = set()
+        base = [o[0] for o in options]
+        combos = [list(base)]
+        for i, o in enumerate(options):
+            for alt in o[1:]:
+                c = list(base)
+                c[i] = alt
+                combos.append(c)
+        for extra in self.extra_combos:
+            combos.append([options[i][j] for i, j in enumerate(extra)])
+        for c in combos:
+            key = tuple(id(x) for x in c)
+            if key in seen:
+                continue
+            seen.add(key)
+            yield UnitInstance(self, list(zip(names, c)))
+
+
+class Lemma(Unit):
+    """A lemma over contracts: mathematics about the spec functions (never mentions code).  `statement(*vals)` is
+    proved for all values; `native(*args)` states the same fact through the REAL functions and is evaluated by the
+    bounded layer on the enumerated domain."""
+    is_lemma = True
+
+    def __init__(self, id, inputs, statement, requires=None, native=None, doc='', **kw):
+        super().__init__(id=id, target=None, inputs=inputs, cases=[], requires=requires, doc=doc, **kw)
+        self.statement, self.native = statement, native
 
 
 class UnitInstance:
@@ -396,6 +455,8 @@ def run_instance(inst, tier='quick', seed=0):
     unit = inst.unit
     t_start = time.time()
     timeout_ms = unit.timeout_ms or (10000 if tier == 'quick' else 60000)
+    if getattr(unit, 'is_lemma', False):
+        return _run_lemma(inst, timeout_ms)
     fn = resolve(unit.target)
     it = Interp(max_paths=unit.max_paths, feas_timeout_ms=unit.feas_timeout_ms)
     models.USED_UFS.clear()
@@ -442,7 +503,7 @@ def run_instance(inst, tier='quick', seed=0):
         paths = [(Path([]), ('unsupported', f'interpreter error {type(ex).__name__}: {ex}\n{traceback.format_exc(limit=4)}'))]
     explore_s = time.time() - t_start
 
-    cases = [Case('no_python_exception', lambda *a: True, None)] + list(unit.cases)
+    cases = [Case('no_python_exception', lambda *a: True, None)] + [c for c in unit.cases if c.proof]
     if unit.canary is not None:
         cases.append(Case('canary(must be refuted)', unit.canary.guard, unit.canary.ensures))
     results = []
@@ -523,6 +584,42 @@ def run_instance(inst, tier='quick', seed=0):
                 interpreted=sorted(it.interpreted), ufs=sorted(models.USED_UFS),
                 outcomes=_outcome_summary(paths))
     return results, meta
+
+
+def _run_lemma(inst, timeout_ms):
+    unit = inst.unit
+    t0 = time.time()
+    models.USED_UFS.clear()
+    del models.AXIOM_INSTANCES[:]
+    vals, vars_ = [], {}
+    for name, shape in inst.inputs:
+        v, vs = shape.make(name)
+        vals.append(v)
+        vars_.update(vs)
+    ob = dict(id=f'{inst.id}/lemma', unit=unit.id, instance=inst.label, case='lemma', target='(lemma over contracts)',
+              paths=0, queries=1, backends={}, verdict='proved', reasons=[], witness=None, is_canary=False, covered=True)
+    try:
+        req = unit.requires(*vals)
+        st = unit.statement(*vals)
+        assertions = [B(lift(req) if not is_sym(req) else req)] + list(models.AXIOM_INSTANCES)
+        cover = solve.solve(assertions, timeout_ms=5000, other_backends=False)
+        ob['covered'] = cover.status != 'unsat'
+        if not is_sym(st):
+            if not st:
+                ob.update(verdict='undecided', reasons=['lemma statement is concretely false'])
+        else:
+            r = solve.solve(assertions + [z3.Not(B(st))] + list(models.AXIOM_INSTANCES), timeout_ms=timeout_ms)
+            ob['backends'][r.backend] = 1
+            if r.status == 'sat':
+                ob.update(verdict='undecided', reasons=[f'lemma not valid over the spec functions: {str(r.model)[:300]}'])
+            elif r.status != 'unsat':
+                ob.update(verdict='undecided', reasons=[f'solver unknown: {r.detail}'])
+    except Exception as ex:
+        ob.update(verdict='undecided', reasons=[f'lemma not encodable: {type(ex).__name__}: {ex}'])
+    ob['time_s'] = round(time.time() - t0, 3)
+    meta = dict(instance=inst.id, target=None, paths=0, explore_s=0, solver_calls=1, feas_time_s=0, interpreted=[],
+                ufs=sorted(models.USED_UFS), outcomes={})
+    return [ob], meta
 
 
 def _outcome_summary(paths):
@@ -713,6 +810,8 @@ def _same_outcome(a, b):
 def crosscheck_instance(inst, n=6, seed=0):
     """run the interpreter on concrete inputs and compare with CPython (guards the interpreter + builtin models)"""
     unit = inst.unit
+    if getattr(unit, 'is_lemma', False):
+        return dict(instance=inst.id, checked=0, disagreements=[])
     fn = resolve(unit.target)
     rng = random.Random(hash((seed, inst.id)) & 0xffffffff)
     bad, done = [], 0
@@ -750,7 +849,7 @@ def _clone(a):
 def bounded_instance(inst, cap=None, seed=0, extra_random=0):
     """the same contract as a run-time monitor over the exhaustively enumerated small domain of the shapes"""
     unit = inst.unit
-    fn = resolve(unit.target)
+    fn = resolve(unit.target) if unit.target else None
     doms = [shape.domain() for _, shape in inst.inputs]
     total = 1
     for d in doms:
@@ -769,8 +868,20 @@ def bounded_instance(inst, cap=None, seed=0, extra_random=0):
     samples = []
     for args in combos:
         args = list(args)
-        out = native_outcome(unit, fn, args)
-        verdicts = eval_contract_native(unit, args, out)
+        if getattr(unit, 'is_lemma', False):
+            if unit.native is None:
+                continue
+            try:
+                if not unit.requires(*args):
+                    continue
+                ok = bool(unit.native(*args))
+                out = Outcome('ret', ok)
+            except Exception as ex:     # noqa
+                ok, out = False, Outcome('raise', ex)
+            verdicts = [('lemma(through the real functions)', ok)]
+        else:
+            out = native_outcome(unit, fn, args)
+            verdicts = eval_contract_native(unit, args, out)
         if verdicts is None:
             continue
         evals += 1
